@@ -1,9 +1,10 @@
 (* C10 model driver.
+     r <forced> <meta> <doc1> <doc2>     -> answer for doc1 ; answer for doc2 (parser reuse: no state in the model)
      w <forced> <meta> <hexdoc>          -> ok <langid> <charset> | err <name>     (select_lang)
      X <pub|~> <sys|~> <roothex> <textual> <anon>
                                          -> ok <langid> num <n> | ok <langid> idx <hexstring> | err   (xml_select + header_pubid) *)
 open Model
-open Conv_s
+open Conv
 
 let bit b i = (b lsr i) land 1 = 1
 let ascii_of_char (c : char) : ascii =
@@ -40,6 +41,17 @@ let () =
           let cs = match parse_header main_table forced meta doc with POk hd -> int_of_n hd.h_charset | PErr _ -> -1 in
           Printf.printf "ok %d %d\n" (int_of_n l.l_id) cs
         | PErr e -> Printf.printf "err %s\n" (ename e))
+     | ["r"; f; m; h1; h2] ->
+       (* a parser object carries nothing from one document to the next: each document is judged on its own *)
+       let forced = n_of_int (int_of_string f) and meta = n_of_int (int_of_string m) in
+       let one h =
+         let doc = bytes_of_hex h in
+         match select_lang main_table forced meta doc with
+         | POk l ->
+           let cs = match parse_header main_table forced meta doc with POk hd -> int_of_n hd.h_charset | PErr _ -> -1 in
+           Printf.sprintf "ok %d %d" (int_of_n l.l_id) cs
+         | PErr e -> Printf.sprintf "err %s" (ename e) in
+       Printf.printf "%s ; %s\n" (one h1) (one h2)
      | ["X"; p; s; r; t; a] ->
        (match xml_select main_table (o p) (o s) (coq_of_str (str_of_hex r)) with
         | None -> print_endline "err"
